@@ -393,7 +393,9 @@ def m_liquidity_precision(tr):
         if not on_grid(o.quote_amount_filled - q0, qp):
             bad.append(("quote-off-grid", f"quote fill {o.quote_amount_filled - q0} not a multiple of 1e-{qp}"))
         for s, f in o.fees.items():
-            if not on_grid(f - f0.get(s, ZERO), qp):
+            # a fee charged in the pair's base symbol lives on the base grid
+            fprec = bp if s == PAIRS[pair_of[oid]].base_symbol else qp
+            if not on_grid(f - f0.get(s, ZERO), fprec):
                 bad.append(("fee-off-grid", f"fee {f - f0.get(s, ZERO)} {s} off the grid"))
     # the no-dust clause is about accounts whose initial balances and loan amounts are on the precision grid
     on_grid_account = all(on_grid(D(str(a_)), grid_prec(cfg, s_)) for s_, a_ in cfg["init"]) and \
@@ -413,7 +415,7 @@ def m_liquidity_precision(tr):
         used = ZERO
         # state of the account when each order's turn comes, reconstructed from public information (no lending: closing
         # an order has no side effect but the release of its own hold)
-        sequential = not cfg.get("lend")
+        sequential = not cfg.get("lend") and not (cfg.get("fee") and cfg["fee"][0] == "base")
         table = remaining_reservations(w, tr.before.orders, upto=tr.before.nevents) if sequential else {}
         bal = {s_: b[0] + b[1] for s_, b in tr.before.bal.items()}
         hold = {s_: b[1] for s_, b in tr.before.bal.items()}
